@@ -101,6 +101,21 @@ def worker_main(argv: list[str]) -> int:
         "stopped_early": False,
         "slowest": [0.0, -1],
     }
+    import signal
+
+    class CaseTimeout(BaseException):
+        pass
+
+    fired = [0]
+
+    def on_alarm(signum: int, frame: Any) -> None:
+        # fires once after case_limit seconds and then every 50 ms until the case is over, so that code which swallows
+        # the exception (or spins again) cannot keep the worker busy for ever
+        fired[0] += 1
+        raise CaseTimeout("wall-clock watchdog: the case ran for more than %d real seconds" % case_limit)
+
+    case_limit = int(os.environ.get("VERIF_CASE_TIMEOUT_S", plan.get("case_timeout_s", 20)))
+    signal.signal(signal.SIGALRM, on_alarm)
     for idx in range(shard, n, nshards):
         if time.monotonic() - t0 > budget:
             res["stopped_early"] = True
@@ -108,14 +123,21 @@ def worker_main(argv: list[str]) -> int:
         case = mod.gen_case(idx, seed, tier)
         tc = time.monotonic()
         try:
-            r = mod.run_case(case)
-        except BaseException as exc:  # harness failure: never a verdict on asphalt
+            fired[0] = 0
+            signal.setitimer(signal.ITIMER_REAL, case_limit, 0.05)
+            try:
+                r = mod.run_case(case)
+            finally:
+                signal.setitimer(signal.ITIMER_REAL, 0)
+            if fired[0]:
+                raise CaseTimeout("wall-clock watchdog fired %d time(s) during this case (inconclusive, not a verdict)" % fired[0])
+        except BaseException as exc:  # harness failure (or wall-clock watchdog): never a verdict on asphalt
             if isinstance(exc, KeyboardInterrupt) and "injected" not in str(exc):
                 raise
             res["errors"].append(
                 {"idx": idx, "error": "".join(traceback.format_exception(exc))[-3000:], "case": case}
             )
-            if len(res["errors"]) > 20:
+            if len(res["errors"]) > 8:
                 break
             continue
         res["evaluations"] += 1
